@@ -7,6 +7,7 @@ from . import universe as U
 from . import values as V
 from . import toolchain as T
 from . import sse
+from . import apimodel as A
 
 MAX_ART = 3      # artefacts kept per key per batch
 
@@ -20,6 +21,9 @@ def unaligned_greedy_tail(ref, top, spans):
     if ref.layout(top).kind != R.K_UNLIMITED or not spans:
         return False
     return spans[-1].role == 'pad:tail'
+
+
+has_nonfixed_bytes = A.has_nonfixed_bytes
 
 
 def judge_batch(job):
@@ -60,6 +64,61 @@ def judge_batch(job):
             if capped:
                 out['capped'] += 1
             prev_value = None
+            # untouched and sparsely built messages (only non-default fields assigned) must encode like fully
+            # assigned ones: value states reached from the initial state by fewer operations
+            amodel = A.ApiModel(ref)
+            extra = []
+            if not has_nonfixed_bytes(ref, top):      # recorded finding F11 (C10): unset bytes read ''
+                extra.append(('fresh', amodel.to_tree(top, amodel.default(top)), lambda t=top: cls()))
+            for v in vals[:8]:
+                extra.append(('sparse', v, lambda v=v: A.build_sparse(ref, amodel, top, v, cls())))
+            for label, v, make in extra:
+                for e in ('<', '>', '<'):
+                    exp, spans = ref.encode(top, v, e)
+                    out['exec'] += 1
+                    if label == 'fresh':
+                        continue
+                    try:
+                        got = make().encode(e)
+                    except Exception as ex:     # noqa
+                        got = ex
+                    if got != exp and 'C01' in props:
+                        key = ('py-encode|sparse|raises=%s' % type(got).__name__) if isinstance(got, Exception) else \
+                            ('py-encode|sparse|' + sse.diagnose(ref, top, exp, spans, got))
+                        viol('C01', key, dict(sse.artefact_for(st, top, ref, prep.defs, v, e, exp,
+                                                               b'' if isinstance(got, Exception) else got,
+                                                               'sparsely built message encodes differently'), build='sparse'))
+            if extra and extra[0][0] == 'fresh':
+                # one untouched object encoded in both orders, twice: no state may stick between calls
+                v = extra[0][1]
+                m = cls()
+                outs = []
+                for e in ('<', '>', '<', '>'):
+                    out['exec'] += 1
+                    try:
+                        outs.append(m.encode(e))
+                    except Exception as ex:     # noqa
+                        outs.append(ex)
+                for e, got in zip('<><>', outs):
+                    exp, spans = ref.encode(top, v, e)
+                    if got != exp:
+                        if 'C01' in props:
+                            key = ('py-encode|fresh|raises=%s' % type(got).__name__) if isinstance(got, Exception) else \
+                                ('py-encode|fresh|' + sse.diagnose(ref, top, exp, spans, got))
+                            viol('C01', key, dict(sse.artefact_for(st, top, ref, prep.defs, v, e, exp,
+                                                                   b'' if isinstance(got, Exception) else got,
+                                                                   'untouched message encodes differently'), build='fresh'))
+                if 'C19' in props and not any(isinstance(g, Exception) for g in outs):
+                    exp, spans = ref.encode(top, v, '<')
+                    for le, be in ((outs[0], outs[1]), (outs[2], outs[3]), (outs[2], outs[1])):
+                        if len(le) != len(be):
+                            viol('C19', 'py|fresh|length', dict(sse.artefact_for(
+                                st, top, ref, prep.defs, v, '<>', le, be, 'lengths differ'), build='fresh'))
+                        elif R.differs_only_in_padding(spans, exp, le):
+                            why = R.scalar_mirror_ok(spans, le, be)
+                            if why:
+                                viol('C19', 'py|fresh|' + why.split(' at ')[0].split(' .')[0], dict(sse.artefact_for(
+                                    st, top, ref, prep.defs, v, '<>', le, be, why), build='fresh'))
             for v in vals:
                 out['values'] += 1
                 encs = {}
@@ -92,19 +151,19 @@ def judge_batch(job):
                 if len(out['samples']) < 2 and '<' in encs:
                     out['samples'].append({'state': st.key, 'value': repr(v)[:200], 'little': encs['<'].hex()})
                 # ---- C19 (python part)
-                if 'C19' in props:
-                    if judged_ok:
-                        why = R.scalar_mirror_ok(exps['<'][1], encs['<'], encs['>'])
+                if 'C19' in props and len(encs) == 2:
+                    le, be = encs['<'], encs['>']
+                    if len(le) != len(be):
+                        viol('C19', 'py|length', sse.artefact_for(
+                            st, top, ref, prep.defs, v, '<>', le, be, 'lengths differ'))
+                    elif R.differs_only_in_padding(exps['<'][1], exps['<'][0], le):
+                        # the little-endian output has the oracle's layout: the span map applies to both outputs
+                        why = R.scalar_mirror_ok(exps['<'][1], le, be)
                         if why:
-                            viol('C19', 'py|' + why.split(' at ')[0], sse.artefact_for(
-                                st, top, ref, prep.defs, v, '<>', encs['<'], encs['>'], why))
-                    elif len(encs) == 2:
-                        # oracle-independent part: same length, zero padding where both agree on layout
-                        if len(encs['<']) != len(encs['>']):
-                            viol('C19', 'py|length', sse.artefact_for(
-                                st, top, ref, prep.defs, v, '<>', encs['<'], encs['>'], 'lengths differ'))
-                        else:
-                            out['not_judged'] += 1
+                            viol('C19', 'py|' + why.split(' at ')[0].split(' .')[0], sse.artefact_for(
+                                st, top, ref, prep.defs, v, '<>', le, be, why))
+                    else:
+                        out['not_judged'] += 1
                 # ---- C02
                 if 'C02' in props:
                     for e in '<>':
